@@ -1,10 +1,12 @@
 pub mod common;
 pub mod lap;
 pub mod c02;
+pub mod c11;
 pub mod c16;
+pub mod c17;
 
 use crate::runner::PropDef;
 
 pub fn all() -> Vec<PropDef> {
-    vec![c02::prop(), c16::prop()]
+    vec![c02::prop(), c11::prop(), c16::prop(), c17::prop()]
 }
